@@ -1,1 +1,100 @@
-fn main() {}
+//! Stand-in for the `vampire` executable (C10). Reads the problem from stdin, looks its hash up
+//! in the plan file ($AVM_PLAN: lines `hash outcome delay_ms`), appends one record to the event
+//! log ($AVM_LOG, single O_APPEND write) and keeps the exact stdin bytes in $AVM_LOG.d/.
+use std::io::{Read, Write};
+use std::time::{SystemTime, UNIX_EPOCH};
+
+fn fnv_bytes(b: &[u8]) -> u64 {
+    let mut h: u64 = 0xcbf29ce484222325;
+    for x in b {
+        h ^= *x as u64;
+        h = h.wrapping_mul(0x100000001b3);
+    }
+    h
+}
+
+fn now_ns() -> u128 {
+    SystemTime::now().duration_since(UNIX_EPOCH).map(|d| d.as_nanos()).unwrap_or(0)
+}
+
+fn main() {
+    let t_start = now_ns();
+    let args: Vec<String> = std::env::args().skip(1).collect();
+    let plan = std::env::var("AVM_PLAN").unwrap_or_default();
+    let log = std::env::var("AVM_LOG").unwrap_or_default();
+    let pid = std::process::id();
+    if std::env::var("AVM_EARLY_CLOSE").is_ok() {
+        // the prover dies before reading its input
+        drop(std::io::stdin());
+        let rec = format!("{pid} {t_start} {} 0 early_close {}\n", now_ns(), args.join(" "));
+        if let Ok(mut f) = std::fs::OpenOptions::new().append(true).create(true).open(&log) {
+            let _ = f.write_all(rec.as_bytes());
+        }
+        std::process::exit(1);
+    }
+    let mut input = Vec::new();
+    let _ = std::io::stdin().read_to_end(&mut input);
+    let h = fnv_bytes(&input);
+    let mut outcome = "nostatus".to_string();
+    let mut delay: u64 = 0;
+    if let Ok(p) = std::fs::read_to_string(&plan) {
+        for l in p.lines() {
+            let mut it = l.split_whitespace();
+            if it.next().and_then(|x| x.parse::<u64>().ok()) == Some(h) {
+                outcome = it.next().unwrap_or("nostatus").to_string();
+                delay = it.next().and_then(|x| x.parse().ok()).unwrap_or(0);
+                break;
+            }
+        }
+    }
+    let _ = std::fs::create_dir_all(format!("{log}.d"));
+    let _ = std::fs::write(format!("{log}.d/stdin_{pid}_{t_start}.p"), &input);
+    std::thread::sleep(std::time::Duration::from_millis(delay));
+    let out = std::io::stdout();
+    let mut o = out.lock();
+    let _ = writeln!(o, "% fake vampire, pid {pid}");
+    let mut code = 0;
+    match outcome.as_str() {
+        "nostatus" => {
+            let _ = writeln!(o, "% Termination reason: nothing to report");
+        }
+        "nonutf8" => {
+            let _ = o.write_all(&[0xff, 0xfe, 0x80, b'\n']);
+        }
+        "theorem_nonutf8" => {
+            let _ = writeln!(o, "% SZS status Theorem for x");
+            let _ = o.write_all(&[0xff, 0xfe, 0x80, b'\n']);
+        }
+        "theorem_then_crash" => {
+            let _ = writeln!(o, "% SZS status Theorem for x");
+            code = 3;
+        }
+        "nonzero_exit" => {
+            let _ = writeln!(o, "% no status, exiting with an error");
+            code = 2;
+        }
+        "kill" => {
+            let _ = o.flush();
+            let rec = format!("{pid} {t_start} {} {h} {outcome} {}\n", now_ns(), args.join(" "));
+            if let Ok(mut f) = std::fs::OpenOptions::new().append(true).create(true).open(&log) {
+                let _ = f.write_all(rec.as_bytes());
+            }
+            std::process::abort();
+        }
+        "two_lines" => {
+            // the first status line counts
+            let _ = writeln!(o, "% SZS status GaveUp for x");
+            let _ = writeln!(o, "% SZS status Theorem for x");
+        }
+        w => {
+            let _ = writeln!(o, "% SZS status {w} for x");
+            let _ = writeln!(o, "% SZS output start Proof for x");
+        }
+    }
+    let _ = o.flush();
+    let rec = format!("{pid} {t_start} {} {h} {outcome} {}\n", now_ns(), args.join(" "));
+    if let Ok(mut f) = std::fs::OpenOptions::new().append(true).create(true).open(&log) {
+        let _ = f.write_all(rec.as_bytes());
+    }
+    std::process::exit(code);
+}
